@@ -75,6 +75,9 @@ type FuncVC struct {
 	errs         []string
 	topFrame     *Frame
 	forceWrap    bool
+	usesLocks    bool
+	lockOnly     bool
+	guardVals    map[ssa.Value]guardInfo
 	ifaceRecv    types.Type
 	ifaceImpl    types.Type
 	lemmaReveal  []string
